@@ -369,10 +369,10 @@ impl BuiltInFunction {
                 };
 
                 {
-                    let mut v_original = v_original_shared.0.borrow_mut();
-                    let mut v_add = v_add.0.borrow_mut();
+                    // copy the elements first: the argument keeps its contents, and `a.join(a)` is well defined
+                    let added: Vec<Primitive> = v_add.0.borrow().iter().cloned().collect();
 
-                    v_original.append(v_add.as_mut());
+                    v_original_shared.0.borrow_mut().extend(added);
                 }
 
                 Ok((Some(Primitive::Vector(v_original_shared.clone())), None))
